@@ -17,6 +17,7 @@ orbifold as `delaney2d::orbifold_symbol` — both are decided by the Spec on eve
 -/
 import DSymVerif.Proofs.DSymGenGeom
 import DSymVerif.Proofs.DSymGenNodup
+import DSymVerif.Proofs.DSymGenCanon
 import DSymVerif.Proofs.DSymGenBox
 import DSymVerif.Proofs.Delaney2dChi
 import DSymVerif.Spec.C07
@@ -333,6 +334,39 @@ theorem canonical_iff (c : Ctx) (vs : List Nat) :
     constructor
     · intro h; exact ⟨ms, rfl, h⟩
     · rintro ⟨ms', h, h'⟩; cases h; exact h'
+
+/-- **exactly one canonical vector per class**: if the orbit maps form a group of permutations
+    of the orbit numbers (identity, composition, inverses — which the action of the automorphism
+    group of the D-set on its 2-orbits is; that the computed maps are that action is the open
+    obligation `orbit_maps_exact_statement`), then `is_canonical` does not panic on vectors with
+    one entry per orbit and every class {vs ∘ m | m a map} contains exactly one vector it
+    accepts — the lexicographically largest. -/
+theorem canonical_one_per_class (c : Ctx) (ms : List (List Nat)) (hm : c.maps = some ms)
+    (hg : GroupMaps c.count ms) (vs : List Nat) (hl : vs.length = c.count) :
+    ∃ w, (∃ m, m ∈ ms ∧ w = act m vs) ∧ isCanonical c w = .ok true ∧
+      ∀ w', (∃ m, m ∈ ms ∧ w' = act m vs) → isCanonical c w' = .ok true → w' = w := by
+  unfold isCanonical
+  rw [hm]
+  exact SymGen.canonical_one_per_class hg vs hl
+
+example : GroupMaps 2 [[0, 1]] := by
+  have hact : ∀ vs : List Nat, vs.length = 2 → act [0, 1] vs = vs := by
+    intro vs hl
+    match vs, hl with
+    | [a, b], _ => rfl
+  refine ⟨?_, ⟨[0, 1], by simp, hact⟩, ?_, ?_⟩
+  · intro m hm
+    rw [List.mem_singleton.mp hm]
+    refine ⟨rfl, fun i hi => ?_⟩
+    match i, hi with
+    | 0, _ => decide
+    | 1, _ => decide
+  · intro m1 h1 m2 h2
+    rw [List.mem_singleton.mp h1, List.mem_singleton.mp h2]
+    exact ⟨[0, 1], by simp, fun vs hl => by rw [hact vs hl, hact vs hl]⟩
+  · intro m h
+    rw [List.mem_singleton.mp h]
+    exact ⟨[0, 1], by simp, fun vs hl => by rw [hact vs hl, hact vs hl]⟩
 
 /-- **`symbol_count` numbers are 1, 2, 3, … in emission order**; the numbered sequence is the
     emitted sequence, and `SimpleDSym::from_partial`'s completeness assertion holds for every
